@@ -125,12 +125,20 @@ func TestC13Lifecycle(t *testing.T) {
 		nconn := rapid.IntRange(1, maxConn).Draw(t, "nconn")
 		plans := make([]string, nconn)
 		sides := make([]string, nconn)
-		kinds := []string{"closeInAttaching", "closeInAttached", "closeLater", "peerDrop", "protoRefuse", "leave", "leave"}
+		kinds := []string{"closeInAttaching", "closeInAttached", "closeLater", "peerDrop", "protoRefuse", "closeRacingAttach", "leave", "leave"}
+		raceUs := make([]int, nconn)    // closeRacingAttach: Close lands this long after the Attaching callback returned
+		dialFails := make([]int, nconn) // dialer side: this many attempts fail before the connection is made
 		for i := range plans {
 			plans[i] = rapid.SampledFrom(kinds).Draw(t, "plan")
 			sides[i] = rapid.SampledFrom([]string{"listener", "dialer"}).Draw(t, "side")
+			if plans[i] == "closeRacingAttach" {
+				raceUs[i] = rapid.SampledFrom([]int{0, 1, 2, 3, 5, 8, 13, 20, 40}).Draw(t, "raceUs")
+			}
+			if sides[i] == "dialer" && rapid.IntRange(0, 3).Draw(t, "dialFails") == 0 {
+				dialFails[i] = rapid.IntRange(1, 2).Draw(t, "nDialFails")
+			}
 		}
-		doc := map[string]interface{}{"test": "TestC13Lifecycle", "base": base, "plans": plans, "sides": sides, "rseed": os.Getenv("VERIF_RSEED")}
+		doc := map[string]interface{}{"test": "TestC13Lifecycle", "base": base, "plans": plans, "sides": sides, "race_us": raceUs, "dial_fails": dialFails, "rseed": os.Getenv("VERIF_RSEED")}
 		var fmu sync.Mutex
 		var failures [][2]string
 		fail := func(k, f string, a ...interface{}) {
@@ -154,6 +162,7 @@ func TestC13Lifecycle(t *testing.T) {
 		var arrival []*pinfo
 		live := map[uint32]mangos.Pipe{}
 		curPlan := "" // plan of the connection being established (connections are made one at a time)
+		curRace := 0
 		sock.SetPipeEventHook(func(ev mangos.PipeEvent, p mangos.Pipe) {
 			// The id must be allocated on entry to every callback (checked before the event becomes
 			// visible to the harness, which may then close the pipe and thereby end its life).
@@ -170,6 +179,7 @@ func TestC13Lifecycle(t *testing.T) {
 			}
 			pi.events = append(pi.events, ev)
 			plan := curPlan
+			race := curRace
 			id := p.ID()
 			switch ev {
 			case mangos.PipeEventAttaching:
@@ -187,6 +197,14 @@ func TestC13Lifecycle(t *testing.T) {
 			case mangos.PipeEventAttaching:
 				if plan == "closeInAttaching" {
 					_ = p.Close()
+				}
+				if plan == "closeRacingAttach" {
+					// somebody else closes the pipe just as the socket goes on to add it
+					go func() {
+						for t0 := time.Now(); time.Since(t0) < time.Duration(race)*time.Microsecond; {
+						}
+						_ = p.Close()
+					}()
 				}
 			case mangos.PipeEventAttached:
 				if plan == "closeInAttached" {
@@ -238,6 +256,9 @@ func TestC13Lifecycle(t *testing.T) {
 		dep.SetDial(func(int) (*vt.Pipe, error) {
 			select {
 			case p := <-permits:
+				if p == nil {
+					return nil, mangos.ErrConnRefused
+				}
 				return p, nil
 			case <-stopDial:
 				return nil, mangos.ErrClosed
@@ -255,6 +276,7 @@ func TestC13Lifecycle(t *testing.T) {
 		var livePipes []*vt.Pipe // vt pipes expected to be attached now
 		var liveInfos []*pinfo
 		hookSide, refusals := false, 0
+		dialFailed, raced := false, 0
 		for i := 0; i < nconn && nfail() == 0; i++ {
 			plan := plans[i]
 			// xpair admits one peer: a second one is a protocol refusal whatever the plan says
@@ -266,6 +288,7 @@ func TestC13Lifecycle(t *testing.T) {
 			}
 			mu.Lock()
 			curPlan = plan
+			curRace = raceUs[i]
 			n0 := len(arrival)
 			mu.Unlock()
 			var vp *vt.Pipe
@@ -284,11 +307,24 @@ func TestC13Lifecycle(t *testing.T) {
 					sides[i] = "listener"
 				} else {
 					vp = dep.NewPipe()
-					select {
-					case permits <- vp:
-					case <-time.After(3 * time.Second):
-						fail("dialer-stopped", "connection %d: the dialer made no further attempt within 3s after the previous connection ended", i)
+					stopped := false
+					for k := 0; k <= dialFails[i] && !stopped; k++ {
+						grant := vp
+						if k < dialFails[i] {
+							grant = nil // this attempt is refused
+						}
+						select {
+						case permits <- grant:
+						case <-time.After(3 * time.Second):
+							fail("dialer-stopped", "connection %d: the dialer made no further attempt within 3s after the previous connection ended (%d refused attempts before)", i, k)
+							stopped = true
+						}
+					}
+					if stopped {
 						continue
+					}
+					if dialFails[i] > 0 {
+						dialFailed = true
 					}
 				}
 			}
@@ -302,6 +338,26 @@ func TestC13Lifecycle(t *testing.T) {
 			wantAttach := !(plan == "closeInAttaching" || plan == "protoRefuse" || natural)
 			if plan == "closeInAttaching" || plan == "closeInAttached" {
 				hookSide = true
+			}
+			if plan == "closeRacingAttach" && !natural {
+				// either outcome is fine — never attached, or attached and detached again —
+				// but it must be one of them (the grammar is checked at the end)
+				raced++
+				if !vp.WaitClosed(3 * time.Second) {
+					fail("raced-not-closed", "connection %d: a pipe closed %dus after its Attaching callback was not closed", i, raceUs[i])
+				}
+				waitFor(50*time.Millisecond, func() bool {
+					return count(pi, mangos.PipeEventAttached) > 0 && pi.detachedReturned
+				})
+				mu.Lock()
+				if count(pi, mangos.PipeEventAttached) == 0 {
+					delete(live, pi.id)
+					stats.Class("race_close_won")
+				} else {
+					stats.Class("race_attach_won")
+				}
+				mu.Unlock()
+				continue
 			}
 			if !wantAttach {
 				if plan != "closeInAttaching" {
@@ -431,6 +487,12 @@ func TestC13Lifecycle(t *testing.T) {
 		}
 		if nconn >= 20 {
 			stats.Class("churn>=20")
+		}
+		if dialFailed {
+			stats.Class("dial_attempt_failed_first")
+		}
+		if raced > 0 {
+			stats.Class("close_racing_attach")
 		}
 		if hookSide || refusals > 0 || nconn >= 20 {
 			stats.NonTrivial(fmt.Sprintf("A|%s|%v|%v", base, plans, sides))
